@@ -38,7 +38,7 @@ type H = [u8; 32];
 /// plain (non-memoizing, non-back-referencing) routines are only run when the
 /// *expanded* tree stays below this many nodes (they are exponential on DAGs
 /// by design; that is not what the property is about)
-const EXPANDED_LIMIT: u64 = 300_000;
+const EXPANDED_LIMIT: u64 = 60_000;
 /// ... and its plain serialisation below this many bytes
 const SERIALIZED_LIMIT: u64 = 1_900_000;
 /// clvmr's back-reference serialiser is only asked to serialise trees with at
@@ -54,15 +54,6 @@ fn hx(b: &[u8]) -> String {
         s.push_str("<empty>");
     }
     s
-}
-
-fn trace(what: &str) {
-    use std::time::Instant;
-    static T0: OnceLock<Instant> = OnceLock::new();
-    if std::env::var_os("C17_TRACE").is_some() {
-        let t0 = T0.get_or_init(Instant::now);
-        eprintln!("[{:8.3}] {what}", t0.elapsed().as_secs_f64());
-    }
 }
 
 fn th(h: &TreeHash) -> H {
@@ -386,7 +377,8 @@ struct BrPolicy {
     max_path: usize,
 }
 
-fn serialize_backrefs(t: &Tree, root: Tid, pol: &BrPolicy) -> (Vec<u8>, u32) {
+/// None: the output would exceed 8 MB (a DAG whose repeats could not be referenced)
+fn serialize_backrefs(t: &Tree, root: Tid, pol: &BrPolicy) -> Option<(Vec<u8>, u32)> {
     const NONE: u32 = u32::MAX;
     enum Op {
         Ser(Tid, u32, u8),
@@ -403,7 +395,19 @@ fn serialize_backrefs(t: &Tree, root: Tid, pol: &BrPolicy) -> (Vec<u8>, u32) {
     let mut opportunities = 0u32;
     let mut nrefs = 0u32;
     let mut steps_rev: Vec<u8> = vec![];
+    // expanded serialised length of every node (saturating): repeats of big
+    // sub-trees are always referenced, whatever the policy says
+    let mut slen = vec![0u64; n];
+    for i in 0..n {
+        slen[i] = match &t.nodes[i] {
+            TNode::Atom(b) => b.len() as u64 + 1,
+            TNode::Pair(l, r) => 1u64.saturating_add(slen[*l as usize]).saturating_add(slen[*r as usize]),
+        };
+    }
     while let Some(op) = ops.pop() {
+        if out.len() > (8 << 20) {
+            return None;
+        }
         match op {
             Op::Ser(x, parent, side) => {
                 let xi = x as usize;
@@ -414,7 +418,9 @@ fn serialize_backrefs(t: &Tree, root: Tid, pol: &BrPolicy) -> (Vec<u8>, u32) {
                     };
                 if candidate {
                     opportunities += 1;
-                    if opportunities % pol.every == 0 {
+                    let forced = slen[xi] > 256;
+                    let max_path = if forced { 1 << 20 } else { pol.max_path };
+                    if forced || opportunities % pol.every == 0 {
                         // walk structural parents up to an instance that sits on the value stack
                         steps_rev.clear();
                         let mut cur = x;
@@ -426,7 +432,7 @@ fn serialize_backrefs(t: &Tree, root: Tid, pol: &BrPolicy) -> (Vec<u8>, u32) {
                                 break;
                             }
                             let (p, sd) = par[cur as usize];
-                            if p == NONE || steps_rev.len() >= pol.max_path {
+                            if p == NONE || steps_rev.len() >= max_path {
                                 break;
                             }
                             steps_rev.push(sd);
@@ -435,7 +441,7 @@ fn serialize_backrefs(t: &Tree, root: Tid, pol: &BrPolicy) -> (Vec<u8>, u32) {
                         if let Some(si) = found {
                             let k = vstack.len() - 1 - si;
                             let m = k + 1 + steps_rev.len();
-                            if m <= pol.max_path {
+                            if m <= max_path {
                                 // bits: k x rest(1), first(0), inner steps, terminator(1)
                                 let mut le = vec![0u8; m / 8 + 1];
                                 let mut set = |i: usize| le[i / 8] |= 1 << (i % 8);
@@ -486,7 +492,7 @@ fn serialize_backrefs(t: &Tree, root: Tid, pol: &BrPolicy) -> (Vec<u8>, u32) {
             }
         }
     }
-    (out, nrefs)
+    Some((out, nrefs))
 }
 
 // --------------------------------------------------------------------------
@@ -512,10 +518,8 @@ fn check_all_routines(
     opts: &RoutineOpts,
     what: &str,
 ) -> Result<(bool, u32), engine::Failure> {
-    trace("routines start");
     if opts.plain {
         let got = th(&tree_hash(a, node));
-        trace("tree_hash done");
         vensure!(
             got == *want,
             "C17:tree_hash:differs-from-definition",
@@ -534,9 +538,7 @@ fn check_all_routines(
         hx(&got),
         hx(want)
     );
-    trace("cached fresh done");
     let memoized = observe(a, node, Some(&cache)).memoized;
-    trace("observe done");
     let got = th(&tree_hash_cached(a, node, &mut cache));
     vensure!(
         got == *want,
@@ -556,13 +558,10 @@ fn check_all_routines(
         hx(&got),
         hx(want)
     );
-    trace("cached x3 done");
     // serialisations
     let mut plain_len = None;
     if opts.plain {
-        trace("ser plain");
         let ser = node_to_bytes_limit(a, node, 1 << 30).expect("node_to_bytes");
-        trace("ser plain done");
         plain_len = Some(ser.len());
         if let Some(ms) = &opts.model_ser {
             // harness-side sanity (both are serialisers outside clvm-utils)
@@ -582,7 +581,6 @@ fn check_all_routines(
             ),
         }
     }
-    trace("from_bytes plain done");
     if let Some(ob) = &opts.own_backrefs {
         match tree_hash_from_bytes(ob) {
             Ok(h) => vensure!(
@@ -599,19 +597,10 @@ fn check_all_routines(
             ),
         }
     }
-    trace("from_bytes own backrefs done");
     if !opts.backrefs {
         return Ok((false, memoized));
     }
-    let t0 = std::time::Instant::now();
     let serb = node_to_bytes_backrefs(a, node).expect("node_to_bytes_backrefs");
-    if std::env::var_os("C17_TRACE2").is_some() {
-        let el = t0.elapsed().as_micros();
-        if el > 3000 {
-            let o = observe(a, node, None);
-            eprintln!("SLOWBR {el} us pairs {} serlen {} plain {:?}", o.pairs, serb.len(), plain_len);
-        }
-    }
     match tree_hash_from_bytes(&serb) {
         Ok(h) => vensure!(
             th(&h) == *want,
@@ -751,7 +740,7 @@ fn case_small(bytes: &[u8], ctx: &mut Ctx) -> CaseResult {
                 plain: true,
                 backrefs: true,
                 model_ser: Some(t.serialize(*r)),
-                own_backrefs: Some(serialize_backrefs(&t, *r, &BrPolicy { atoms_too: share, every: 1, max_path: 4096 }).0),
+                own_backrefs: serialize_backrefs(&t, *r, &BrPolicy { atoms_too: share, every: 1, max_path: 4096 }).map(|x| x.0),
             };
             check_all_routines(&a, node, &hashes[*r as usize], &opts, &what)?;
             let got = th(&tree_hash_cached(&a, node, &mut shared));
@@ -972,18 +961,15 @@ fn case_tree(bytes: &[u8], ctx: &mut Ctx) -> CaseResult {
     };
     let shape_name = ["random", "chain", "wide", "dag", "combo"][shape];
     let own_builder = s.below(3) == 2;
-    let mode = BuildMode::from_src(&mut s);
+    let mut mode = BuildMode::from_src(&mut s);
     let amode_own = s.below(N_ATOM_MODES) as u8;
     let junk = s.below(4);
     let pol = BrPolicy {
         atoms_too: s.bool(),
         every: 1 + s.below(3) as u32,
-        max_path: [8192usize, 256, 16][s.below(3)],
+        max_path: [2048usize, 128, 16][s.below(3)],
     };
-
-    trace(&format!("generated shape {shape} param {param} arena {} root {root}", t.nodes.len()));
     let want = mth::tree_hash(&t, root);
-    trace("model hash done");
     let expanded = t.expanded_size(root);
     let plain = expanded <= EXPANDED_LIMIT && serialized_len(&t, root) <= SERIALIZED_LIMIT;
 
@@ -994,25 +980,31 @@ fn case_tree(bytes: &[u8], ctx: &mut Ctx) -> CaseResult {
         let n = a.nil();
         a.new_pair(x, n).unwrap();
     }
-    let (node, share_eff, amode) = if own_builder {
+    // expanded (one node per occurrence) builds only up to 20 000 nodes
+    if expanded > 20_000 {
+        mode.share = true;
+    }
+    let share_eff = mode.share;
+    let (node, amode) = if own_builder {
         let mut map = vec![];
         let (n, _) = build_inc(&mut a, &t, root, mode.share, amode_own, 0, &mut map);
-        (n, mode.share || expanded > 20_000, amode_own)
+        (n, amode_own)
     } else {
-        (gentree::build(&mut a, &t, root, mode), mode.share || expanded > 200_000, mode.atoms)
+        (gentree::build(&mut a, &t, root, mode), mode.atoms)
     };
-
-    trace("built");
     let o = observe(&a, node, None);
     let backrefs = o.pairs <= BACKREFS_MAX_PAIRS;
     let model_ser = if plain { Some(t.serialize(root)) } else { None };
-    let (own_br, own_refs) = serialize_backrefs(&t, root, &pol);
-    if let Some(ms) = &model_ser {
+    let (own_br, own_refs) = match serialize_backrefs(&t, root, &pol) {
+        Some((b, r)) => (Some(b), r),
+        None => (None, 0),
+    };
+    if let (Some(ms), Some(own_br)) = (&model_ser, &own_br) {
         // harness-side sanity of the harness' own back-reference serialiser:
         // clvmr's deserialiser must read it back as the same tree
         if ms.len() <= 4096 || s.chance(16) {
             let mut a2 = Allocator::new();
-            let n2 = clvmr::serde::node_from_bytes_backrefs(&mut a2, &own_br)
+            let n2 = clvmr::serde::node_from_bytes_backrefs(&mut a2, own_br)
                 .expect("harness: own back-reference serialisation does not parse");
             let back = node_to_bytes_limit(&a2, n2, 1 << 30).expect("node_to_bytes");
             assert!(back == *ms, "harness: own back-reference serialisation decodes to a different tree");
@@ -1022,11 +1014,9 @@ fn case_tree(bytes: &[u8], ctx: &mut Ctx) -> CaseResult {
         plain,
         backrefs,
         model_ser,
-        own_backrefs: Some(own_br),
+        own_backrefs: own_br,
     };
     let (br_shorter, memoized) = check_all_routines(&a, node, &want, &opts, "tree")?;
-
-    trace("routines done");
     // the TreeHasher encoder, and the Allocator encoder as one more way of building
     let got = th(&TreeRef { t: &t, root }.tree_hash());
     vensure!(
@@ -1048,8 +1038,6 @@ fn case_tree(bytes: &[u8], ctx: &mut Ctx) -> CaseResult {
             hx(&want)
         );
     }
-
-    trace("encoders done");
     ctx.label(format!("shape:{shape_name}"));
     ctx.label(if share_eff { "build:shared" } else { "build:expanded" });
     ctx.label(format!("atoms:{}{amode}", if own_builder { "own" } else { "gentree" }));
@@ -1069,7 +1057,7 @@ fn case_tree(bytes: &[u8], ctx: &mut Ctx) -> CaseResult {
         ctx.label("empty-atom:heap");
     }
     if !plain {
-        ctx.label("plain-routines-skipped(expanded>300k)");
+        ctx.label("plain-routines-skipped(expanded>60k)");
     }
     if plain && backrefs && br_shorter {
         ctx.label("backrefs-used");
@@ -1370,7 +1358,11 @@ fn case_history(bytes: &[u8], ctx: &mut Ctx) -> CaseResult {
         )
     });
     r?;
-    ctx.label(format!("history-len:{}", h.hashed_roots.len().min(9)));
+    // number of distinct nodes (roots and, in free-form histories, inner nodes) hashed through the one cache
+    ctx.label(match h.hashed_roots.len() {
+        n @ 0..=8 => format!("history-len:{n}"),
+        _ => "history-len:9+".to_string(),
+    });
     ctx.label(format!("style:{style_name}"));
     if style != 2 {
         ctx.label(if prepass { "prepass:visit_tree-all-first" } else { "prepass:none" });
@@ -1774,7 +1766,7 @@ fn main() {
             "reference = vcore::model::treehash (sha2 crate, bottom-up over the arena); it calls nothing under test",
             "clvmr's node_to_bytes / node_to_bytes_backrefs / Allocator are trusted as the producers of inputs (node_to_bytes is cross-checked against the model's own serialisation for trees up to 50 000 expanded nodes)",
             "a TreeCache is only ever used with the one allocator whose nodes it has seen, and that allocator is never rolled back (as in run_block_generator2)",
-            "plain tree_hash and node_to_bytes are skipped when the expanded tree exceeds 300 000 nodes (they are exponential on DAGs by design)",
+            "plain tree_hash and node_to_bytes are skipped when the expanded tree exceeds 60 000 nodes or 1.9 MB serialised (they are exponential on DAGs by design)",
             "curry_and_treehash is private: observed through fast_forward_singleton on valid-by-construction scenarios; results other than Ok / ParentCoinMismatch / *HashMismatch are discarded (C19 owns them)",
         ],
         death_is_violation: false,
@@ -1798,7 +1790,7 @@ fn main() {
             SubCheck {
                 name: "trees",
                 about: "one tree, every routine (tree_hash, tree_hash_cached fresh/twice/after visit_tree, from_bytes plain+backrefs, TreeHasher) against the definition",
-                source: Source::Random { len: 2048, quick: 300_000, thorough: 6_000_000 },
+                source: Source::Random { len: 2048, quick: 250_000, thorough: 5_000_000 },
                 run: case_tree,
                 inflight: true,
                 min_nontrivial: 100_000,
@@ -1812,7 +1804,7 @@ fn main() {
                     "dag>60-levels",
                     "build:expanded",
                     "backrefs-used",
-                    "plain-routines-skipped(expanded>300k)",
+                    "plain-routines-skipped(expanded>60k)",
                 ],
             },
             SubCheck {
@@ -1837,7 +1829,7 @@ fn main() {
             SubCheck {
                 name: "curry",
                 about: "curry_tree_hash from hashes alone = definition's hash of the curried program = tree_hash(CurriedProgram.to_clvm()) = TreeHasher, 0-8 args",
-                source: Source::Random { len: 768, quick: 150_000, thorough: 3_000_000 },
+                source: Source::Random { len: 1024, quick: 150_000, thorough: 3_000_000 },
                 run: case_curry,
                 inflight: false,
                 min_nontrivial: 80_000,
@@ -1846,7 +1838,7 @@ fn main() {
             SubCheck {
                 name: "fast-forward-curry",
                 about: "chia-consensus curry_and_treehash (private) through fast_forward_singleton on valid-by-construction singleton spends",
-                source: Source::Random { len: 512, quick: 30_000, thorough: 600_000 },
+                source: Source::Random { len: 2048, quick: 30_000, thorough: 600_000 },
                 run: case_ff,
                 inflight: false,
                 min_nontrivial: 20_000,
